@@ -33,7 +33,8 @@ FIX = {
     "c19_surplus_byte": find("sizes the per-stream bitmask"),
     "c19_receiver_accumulates": find("VLA.Unmarshal starts"),
 }
-for k, words in (("c05_legacy_no_element_panic", ("legacy",)), ("c05_first_extension_unvalidated", ("SetExtension",))):
+for k, words in (("c05_legacy_no_element_panic", ("legacy-profile",)), ("c05_first_extension_unvalidated", ("validates the first extension",)),
+                 ("c05_onebyte_empty_value", ("refuses an empty payload",))):
     try:
         FIX[k] = find(*words)
     except SystemExit:
